@@ -27,10 +27,10 @@ res="{}"
 for c in "${checks[@]}"; do
   echo "== check $c against the changed tree"
   rm -rf "$V/replays/$c"
-  ( cd "$V" && VERIF_REPO="$W" VERIF_BUDGET_S=${VERIF_BUDGET_S:-120} ./check "$c" quick > "$D/check_$c.log" 2>&1 ); e=$?
-  keys=$(grep -E "^  key=" "$D/check_$c.log" | sed -E 's/^  key=//; s/ section=.*//' | head -8 | python3 -c "import sys,json; print(json.dumps([l.strip() for l in sys.stdin]))")
+  ( cd "$V" && VERIF_REPO="$W" VERIF_BUDGET_S=${VERIF_BUDGET_S:-$([ "${TIER:-quick}" = thorough ] && echo 1500 || echo 120)} ./check "$c" ${TIER:-quick} > "$D/check_${c}${TIER:+_$TIER}.log" 2>&1 ); e=$?
+  keys=$(grep -E "^  key=" "$D/check_${c}${TIER:+_$TIER}.log" | sed -E 's/^  key=//; s/ section=.*//' | head -8 | python3 -c "import sys,json; print(json.dumps([l.strip() for l in sys.stdin]))")
   echo "   exit=$e keys=$keys" | cut -c1-400
-  res=$(python3 -c "import json,sys; r=json.loads(sys.argv[1]); r[sys.argv[2]]={'exit':int(sys.argv[3]),'keys':json.loads(sys.argv[4])}; print(json.dumps(r))" "$res" "$c" "$e" "$keys")
+  res=$(python3 -c "import json,sys; r=json.loads(sys.argv[1]); r[sys.argv[2]]={'exit':int(sys.argv[3]),'keys':json.loads(sys.argv[4])}; print(json.dumps(r))" "$res" "$c${TIER:+:$TIER}" "$e" "$keys")
   mkdir -p "$D/replays_$c"; cp "$V/replays/$c"/*.json "$D/replays_$c/" 2>/dev/null; ls "$D/replays_$c" | head -3 >/dev/null
   # keep at most 3 replay artefacts per check
   ls "$D/replays_$c" 2>/dev/null | tail -n +4 | while read f; do rm -f "$D/replays_$c/$f"; done
@@ -46,7 +46,14 @@ try: m=json.load(open(src))
 except Exception as e: m={"meta_unreadable":str(e)}
 m["confirmed_by_me"]={"demo_exit_without_change":int(d0),"repo_tests_exit_with_change":int(t),"demo_exit_with_change":int(d1),
    "ran":["cargo run --example (without)","git apply patch.diff","cargo test --workspace --offline","cargo run --example (with)","VERIF_REPO=<worktree> ./check <ID> quick"]}
-m["checks"]=json.loads(res)
+prev={}
+try: prev=json.load(open(dst)).get("checks",{})
+except Exception: pass
+prev.update(json.loads(res)); m["checks"]=prev
+try:
+    old=json.load(open(dst))
+    if "status_note" in old: m["status_note"]=old["status_note"]
+except Exception: pass
 json.dump(m,open(dst,"w"),indent=1)
 print("confirmed: demo_without=%s tests_with=%s demo_with=%s checks=%s"%(d0,t,d1,res))
 PY
